@@ -33,10 +33,11 @@ const (
 	kSweep
 	kExport
 	kRestore
+	kLoad
 )
 
 var kindName = []string{"Set", "SetDefault", "SetNoExpire", "SetIfAbsent", "Replace", "Delete", "Get", "GetWithExpire",
-	"Count", "Clear", "VerifSweep", "Export", "Restore"}
+	"Count", "Clear", "VerifSweep", "Export", "Restore", "Load"}
 
 const nKeys = 4
 const ms = time.Millisecond
@@ -59,7 +60,7 @@ type planOp struct {
 	// lands on the deadline itself (exercises the undecided windows of the interval checker)
 	alignOn bool
 	align   int64
-	synth   []synthEnt // Restore: synthetic content (nil = latest exported blob, or empty object when none)
+	synth   []synthEnt // Restore / Load: synthetic content (nil = latest exported blob, or empty object when none)
 }
 
 type plan struct {
@@ -131,10 +132,29 @@ func (g *gen) add(kind, k int, ttl, pause time.Duration) {
 }
 func (g *gen) key() int { return g.r.Intn(nKeys) }
 
+// synthWith: synthetic content with a chosen entry for key fk (fk < 0: none forced)
+func (g *gen) synthWith(fk int, fe synthEnt) []synthEnt {
+	s := g.synth()
+	if fk < 0 {
+		return s
+	}
+	out := []synthEnt{}
+	for _, e := range s {
+		if e.k != fk {
+			out = append(out, e)
+		}
+	}
+	fe.k = fk
+	fe.v = g.nv()
+	return append(out, fe)
+}
+
 func (g *gen) synth() []synthEnt {
 	var s []synthEnt
 	for k := 0; k < nKeys; k++ {
-		switch g.r.Intn(6) {
+		switch g.r.Intn(7) {
+		case 6: // deadline inside (or next to) the clock bracket of the load itself
+			s = append(s, synthEnt{k: k, v: g.nv(), rel: time.Duration(g.r.Intn(40000)), timed: true})
 		case 0: // absent
 		case 1:
 			s = append(s, synthEnt{k: k, v: g.nv()})
@@ -178,23 +198,24 @@ func (g *gen) random(heavyPause bool, w []int) {
 			op.align = int64(g.r.Intn(601)) - 300
 		}
 	}
-	if kind == kRestore && g.r.Bool() {
+	if (kind == kRestore || kind == kLoad) && g.r.Intn(3) != 0 {
 		op.synth = g.synth()
 	}
 	g.ops = append(g.ops, op)
 }
 
-// Set SetD SetNE SIA Repl Del Get GetWE Cnt Clr Swp Exp Rst
-var wPlain = []int{12, 4, 4, 8, 8, 4, 6, 14, 6, 1, 8, 2, 2}
-var wChurn = []int{10, 3, 3, 6, 6, 12, 4, 10, 6, 5, 6, 2, 2}
-var wEdges = []int{8, 2, 2, 16, 16, 2, 4, 12, 4, 0, 6, 1, 1}
+// Set SetD SetNE SIA Repl Del Get GetWE Cnt Clr Swp Exp Rst Load
+var wPlain = []int{12, 4, 4, 8, 8, 4, 6, 14, 6, 1, 8, 2, 2, 4}
+var wChurn = []int{10, 3, 3, 6, 6, 12, 4, 10, 6, 5, 6, 2, 2, 3}
+var wEdges = []int{8, 2, 2, 16, 16, 2, 4, 12, 4, 0, 6, 1, 1, 2}
+var wLoad = []int{10, 2, 3, 5, 5, 2, 4, 14, 6, 1, 8, 4, 1, 12}
 
 func makePlan(r *vhlib.Rng, idx int) plan {
 	g := &gen{r: r}
 	defs := []time.Duration{0, 0, 40 * ms, 120 * ms}
 	pl := plan{def: defs[r.Intn(len(defs))]}
 	n := r.Range(8, 25)
-	switch idx % 6 {
+	switch idx % 7 {
 	case 0:
 		pl.profile = "plain"
 		for len(g.ops) < n {
@@ -298,6 +319,54 @@ func makePlan(r *vhlib.Rng, idx int) plan {
 		}
 		for len(g.ops) < n {
 			g.random(false, wPlain)
+		}
+	case 6: // D32 shape: Load onto a cache that already holds entries
+		pl.profile = "load-over-timed"
+		for i := r.Intn(3); i > 0; i-- {
+			g.random(false, wPlain)
+		}
+		k := g.key()
+		load := func(fe synthEnt, pause time.Duration) {
+			g.ops = append(g.ops, planOp{kind: kLoad, pause: pause, synth: g.synthWith(k, fe)})
+		}
+		switch r.Intn(4) {
+		case 0, 1: // an entry WITHOUT expiry loaded over a timed one
+			ttl := pickTimed(r)
+			g.add([]int{kSet, kSet, kSetIfAbsent, kReplace}[r.Intn(4)], k, ttl, 0)
+			if r.Bool() {
+				g.add(kSet, g.key(), pickTTL(r), 0)
+			}
+			load(synthEnt{}, 0)
+			if r.Bool() {
+				g.add(kGetWithExpire, k, 0, 0)
+			}
+			past := 60 * ms
+			if ttl > 40*ms {
+				past = 150 * ms
+			}
+			g.add(kSweep, 0, 0, past)
+			g.add(kGetWithExpire, k, 0, 0)
+			g.add(kCount, 0, 0, 0)
+			g.add(kExport, 0, 0, 0)
+		case 2: // a timed entry loaded over an untimed one
+			g.add(kSetNoExpire, k, 0, 0)
+			load(synthEnt{rel: 40 * ms, timed: true}, 0)
+			g.add(kGetWithExpire, k, 0, 0)
+			g.add(kSweep, 0, 0, 60*ms)
+			g.add(kGetWithExpire, k, 0, 0)
+			g.add(kCount, 0, 0, 0)
+		case 3: // load over an entry that may have expired already
+			g.add(kSet, k, 40*ms, 0)
+			fe := []synthEnt{{}, {rel: 120 * ms, timed: true}, {rel: -50 * ms, timed: true}, {rel: 40 * ms, timed: true}}[r.Intn(4)]
+			load(fe, []time.Duration{25 * ms, 60 * ms}[r.Intn(2)])
+			g.add(kGetWithExpire, k, 0, 0)
+			g.add(kSweep, 0, 0, []time.Duration{25 * ms, 60 * ms, 150 * ms}[r.Intn(3)])
+			g.add(kCount, 0, 0, 0)
+			g.add(kGetWithExpire, k, 0, 0)
+			g.add(kExport, 0, 0, 0)
+		}
+		for len(g.ops) < n {
+			g.random(false, wLoad)
 		}
 	case 5:
 		pl.profile = "delete-clear-churn"
@@ -540,7 +609,7 @@ func runTrace(pl plan) (res traceRes) {
 					panic(err)
 				}
 				exp = e
-			case kRestore:
+			case kRestore, kLoad:
 				use := blob
 				if op.synth != nil || use == nil {
 					nowNs := time.Now().UnixNano()
@@ -559,12 +628,20 @@ func runTrace(pl plan) (res traceRes) {
 					panic(err)
 				}
 				data = d
-				st.call = fmt.Sprintf("Clear();Load(%s)", string(use))
-				st.op = "ORestore " + coqMap(data, tBase)
-				t0 = time.Now()
-				c.Clear()
-				err = c.Load(use)
-				t1 = time.Now()
+				if op.kind == kLoad {
+					st.call = fmt.Sprintf("Load(%s)", string(use))
+					st.op = "OLoad " + coqMap(data, tBase)
+					t0 = time.Now()
+					err = c.Load(use)
+					t1 = time.Now()
+				} else {
+					st.call = fmt.Sprintf("Clear();Load(%s)", string(use))
+					st.op = "ORestore " + coqMap(data, tBase)
+					t0 = time.Now()
+					c.Clear()
+					err = c.Load(use)
+					t1 = time.Now()
+				}
 				if err != nil {
 					panic(err)
 				}
@@ -666,7 +743,7 @@ func runTrace(pl plan) (res traceRes) {
 			}
 		case kExport:
 			st.out = "OutExport " + coqMap(exp, tBase)
-		case kRestore:
+		case kRestore, kLoad:
 			st.out = "OutUnit"
 			var maxSkipped int64
 			minKept := int64(1) << 62
@@ -677,7 +754,10 @@ func runTrace(pl plan) (res traceRes) {
 				if inWin(e.Expire) {
 					st.window = true
 				}
-				if _, kept := st.mem[kk]; kept {
+				if op.kind == kLoad && prevMem[kk] == e {
+					continue // the cache already held exactly this entry: loaded or not makes no difference
+				}
+				if got, kept := st.mem[kk]; kept && got == e {
 					if e.Expire < minKept {
 						minKept = e.Expire
 					}
@@ -691,7 +771,7 @@ func runTrace(pl plan) (res traceRes) {
 			if maxSkipped >= minKept && maxSkipped >= st.a && minKept <= st.b {
 				// Unmarshal reads the clock once per entry; two deadlines inside the bracket were judged at
 				// different instants: no single instant reproduces it. Not a property matter: drop the trace.
-				res.dropped = "restore-multi-instant"
+				res.dropped = "load-multi-instant"
 				return
 			}
 		}
@@ -743,7 +823,14 @@ func runTicker(r *vhlib.Rng) tickerRes {
 	var calls []string
 	for k := 0; k < n; k++ {
 		v := 1000 + k
-		switch r.Intn(5) {
+		switch r.Intn(6) {
+		case 5: // timed, then an entry without expiry LOADED over it
+			c.Set(k, v, 40*ms)
+			if err := c.Load([]byte(fmt.Sprintf(`{"%d":{"Value":%d,"Expire":0}}`, k, v+700))); err != nil {
+				panic(err)
+			}
+			live[k] = v + 700
+			calls = append(calls, fmt.Sprintf("Set(%d,%d,40ms);Load({%d:{%d,untimed}})", k, v, k, v+700))
 		case 0, 1:
 			c.Set(k, v, 40*ms)
 			short++
